@@ -1,5 +1,5 @@
 (* C20 -- braille highlighting and cursor routing are safe and side-effect free (arithmetic part).  Statements only. *)
-From MC Require Import Lib.Base Gen.HighlightTabs Model.Highlight Proofs.HighlightP.
+From MC Require Import Lib.Base Gen.HighlightTabs Model.Highlight Proofs.HighlightP Model.Route Proofs.RouteP.
 Local Open Scope N_scope.
 
 (* every 6-dot cell: highlighting can be undone and is recognised; a plain cell is not "highlighted" *)
@@ -34,3 +34,32 @@ Print Assumptions lookback_bounded_ueb.
 Theorem route_restores_pref : forall k, run_events false route_events k = false.
 Proof. exact L_route_restores_pref. Qed.
 Print Assumptions route_restores_pref.
+
+(* ------------------------------------------------------------------------------------------------------------------
+   Cursor routing (Model/Route.v: get_navigation_node_from_braille_position / find_navigation_node with its guesses and
+   its narrowing of the range of children; tied by Tie/RouteTie.v).  What the braille rules produce is data of the model:
+   the statements hold for EVERY annotated tree -- whatever cells each element occupies, whatever the estimates are -- every
+   target cell and every fuel.
+   ------------------------------------------------------------------------------------------------------------------ *)
+
+(* what a probe answers is right about the target: "found" means the target lies in the cells of the node named, "look
+   left" that it lies before them, "look right" that it lies after them (or nothing was highlighted); the node named
+   lies below the node probed *)
+Theorem probe_is_sound : forall fuel blen t target a, find fuel blen t target = Some a ->
+  below t (a_node a) /\ sound blen target a.
+Proof. exact L_find_sound. Qed.
+Print Assumptions probe_is_sound.
+
+(* routing names the <math> element with offset 0, or an element of the expression whose cells contain the target cell,
+   with the offset of the target inside those cells *)
+Theorem routing_is_sound : forall fuel blen mid top target i off, route fuel blen mid top target = Some (i, off) ->
+  (i = mid /\ off = 0) \/
+  (exists n, below top n /\ i = r_id n /\ r_st n + off = target /\ target <= r_en n).
+Proof. exact L_route_sound. Qed.
+Print Assumptions routing_is_sound.
+
+(* the id handed out belongs to the expression *)
+Theorem routed_id_belongs_to_the_expression : forall fuel blen mid top target i off, route fuel blen mid top target = Some (i, off) ->
+  i = mid \/ In i (ids top).
+Proof. exact L_route_id_in_expression. Qed.
+Print Assumptions routed_id_belongs_to_the_expression.
